@@ -16,6 +16,9 @@ DEFECTS = {
     "utf8": "asn1_utf8char_from_bytes tests `(in[i] & 0x60) != 0x80`, which is always true: every multi-byte UTF-8 character is refused",
     "hex_odd": "hex2bin/hex_to_bytes print the length-delimited input with %s when the length is odd: read past the end of the buffer (no NUL)",
     "b64_ws": "base64_decode_block evaluates conv_ascii2bin(*f) before testing n > 0: an all-white-space (or empty) input is read one byte past its end",
+    "time_neg": "asn1_time_to_str has no test for a negative time_t: C division truncates toward zero and the fields are added to '0' unchecked, so it returns 1 with characters outside 0-9 (e.g. t = -5 -> \"70010100000+Z\"), which asn1_time_from_str refuses; the DER writers emit it",
+    "encdata_enc": "cms_encrypted_data_to_der: the writing pass calls cms_enced_content_info_to_der(.., NULL, &len) instead of (.., out, outlen): header and version are written, the EncryptedContentInfo is not (return 1, dry run agrees with the short output, the decoder refuses it)",
+    "cms_dalg_cap": "cms_digest_algors_from_der tested `cnt > max` (fixed in e5c010f): digest_algors[max] written for max+1 elements",
     "digest_ret": "x509_digest_algor_from_der returns `ret` (= 1) from its error branch: a known digest OID followed by more content (e.g. NULL) is answered 1 with *oid = OID_undef, an empty SEQUENCE is answered 0 after being consumed",
     "dp_uri": "x509_uri_as_distribution_point(_name)_from_der leaves *uri/*urilen untouched (nameRelativeToCRLIssuer, absent distributionPoint); x509_uri_as_distribution_points_from_der and x509_crl_new_from_cert then read the caller's uninitialised pointer",
     "multiple": "several of the listed defects at once",
@@ -131,6 +134,35 @@ def structured_mutations(r, b, budget):
     for _ in range(budget // 3):
         out.append(("noise", mutate(r, b, r.range(1, 3))))
     return out
+
+
+def oid_siblings(r, b, limit=24):
+    """sibling-OID substitution: every OBJECT IDENTIFIER found by the TLV walk replaced by an OID with the same number of
+    arcs that differs from it in ONE arc (last arc +-1 / +-256, a middle arc, the second arc) - same length where possible,
+    so only the OID comparison can tell them apart.  Returns [(kind, bytes)]."""
+    out = []
+    spans = [(pos, hdr, n) for (pos, hdr, n) in tlv_spans(b) if b[pos - 1] == 6 and 2 <= n < 128 and hdr == 2]
+    r.shuffle(spans)
+    for (pos, hdr, n) in spans:
+        body = bytearray(b[pos + 1:pos + 1 + n])
+        starts = [0] + [i + 1 for i in range(n - 1) if not body[i] & 0x80]          # first octet of every arc (the first holds two arcs)
+        for k, idx in (("last", starts[-1]), ("middle", starts[len(starts) // 2]), ("second", 0)):
+            end = idx
+            while body[end] & 0x80:
+                end += 1
+            for delta in (1, -1, 2):
+                m = bytearray(body)
+                v = (m[end] & 0x7f) + delta
+                if not 0 <= v < 128 or (k == "second" and not 0 <= v % 40 + delta < 40):
+                    continue
+                m[end] = (m[end] & 0x80) | v
+                out.append(("sibling-oid:" + k, b[:pos + 1] + bytes(m) + b[pos + 1 + n:]))
+            if end > idx:                                   # change a high septet of a multi-octet arc: differs by a multiple of 128
+                m = bytearray(body)
+                m[idx] = 0x80 | (((m[idx] & 0x7f) % 126) + 1)
+                out.append(("sibling-oid:" + k + "-high", b[:pos + 1] + bytes(m) + b[pos + 1 + n:]))
+    r.shuffle(out)
+    return out[:limit]
 
 
 def compare(ctx, cases, impl, model, variant, impl_err="", out_of_scope=()):
